@@ -1,10 +1,115 @@
 //! Additional actors (router, reward authority, ...).
 
-use crate::gen::{Actor, Knobs, World};
-use crate::rt::{Ledger, Tx};
+use crate::decode::{self, MAX_TICK, MIN_TICK};
+use crate::gen::{pick_limit, swap_tick_arrays, Actor, Knobs, World};
+use crate::ix::{self, TwoHopAccounts, TwoHopArgs};
+use crate::model;
+use crate::rt::{self, Ledger, Tx};
+use crate::world;
 
-pub fn plan_router(_w: &World, _k: &Knobs, _a: &mut Actor, _l: &Ledger) -> Vec<(Tx, String)> {
-    Vec::new()
+pub fn plan_router(w: &World, knobs: &Knobs, actor: &mut Actor, l: &Ledger) -> Vec<(Tx, String)> {
+    let rng = &mut actor.rng.clone();
+    let mut flow = Vec::new();
+    if w.pools.len() < 2 {
+        return flow;
+    }
+    for attempt in 0..4 {
+        let i1 = rng.idx(w.pools.len());
+        let mut i2 = rng.idx(w.pools.len());
+        // same pool twice: must be rejected (rare)
+        if i2 == i1 && !rng.chance(1, 25) {
+            i2 = (i1 + 1 + rng.idx(w.pools.len() - 1)) % w.pools.len();
+        }
+        let (p1, p2) = (&w.pools[i1].keys, &w.pools[i2].keys);
+        let (Some(s1), Some(s2)) = (l.data(&p1.whirlpool).and_then(decode::pool), l.data(&p2.whirlpool).and_then(decode::pool)) else {
+            continue;
+        };
+        // shared mint: output of leg one = input of leg two
+        let shared = [p1.mint_a, p1.mint_b].into_iter().find(|m| *m == p2.mint_a || *m == p2.mint_b);
+        let (mut a_to_b_one, mut a_to_b_two) = match shared {
+            Some(x) => (p1.mint_b == x, p2.mint_a == x),
+            None => (rng.chance(1, 2), rng.chance(1, 2)),
+        };
+        if rng.chance(1, 30) {
+            a_to_b_one = !a_to_b_one; // wrong direction: intermediate mint mismatch
+        }
+        if rng.chance(1, 30) {
+            a_to_b_two = !a_to_b_two;
+        }
+        let is_input = rng.chance(1, 2);
+        let amount = match rng.below(12) {
+            0 => 1,
+            1 => u64::MAX,
+            2..=7 => {
+                let liq = if is_input { s1.liquidity } else { s2.liquidity };
+                let bits = (128 - liq.leading_zeros()).saturating_sub(2 + rng.below(12) as u32).clamp(3, 60);
+                rng.log_u64(bits)
+            }
+            _ => rng.log_u64(knobs.swap_bits.min(50)),
+        };
+        let mut limit_one = if rng.chance(2, 3) { 0 } else { pick_limit(rng, l, &p1.whirlpool, &s1, a_to_b_one) };
+        let mut limit_two = if rng.chance(2, 3) { 0 } else { pick_limit(rng, l, &p2.whirlpool, &s2, a_to_b_two) };
+        if attempt >= 2 {
+            let far = |s: &decode::Pool, atb: bool, rng: &mut crate::rng::Rng| {
+                let dt = 1 + rng.below(60 * s.tick_spacing as u64) as i32;
+                let t = if atb { s.tick_current_index - dt } else { s.tick_current_index + dt };
+                model::sqrt_price_of_tick(t.clamp(MIN_TICK, MAX_TICK))
+            };
+            if rng.chance(1, 2) {
+                limit_one = far(&s1, a_to_b_one, rng);
+            }
+            if rng.chance(1, 2) {
+                limit_two = far(&s2, a_to_b_two, rng);
+            }
+        }
+        let t = TwoHopAccounts {
+            one: p1.clone(),
+            two: p2.clone(),
+            authority: actor.wallet,
+            owner_one_a: actor.tokens[&p1.mint_a],
+            owner_one_b: actor.tokens[&p1.mint_b],
+            owner_two_a: actor.tokens[&p2.mint_a],
+            owner_two_b: actor.tokens[&p2.mint_b],
+            tick_arrays_one: swap_tick_arrays(&s1, &p1.whirlpool, a_to_b_one),
+            tick_arrays_two: swap_tick_arrays(&s2, &p2.whirlpool, a_to_b_two),
+        };
+        let mut args = TwoHopArgs {
+            amount,
+            other_amount_threshold: if is_input { 0 } else { u64::MAX },
+            amount_specified_is_input: is_input,
+            a_to_b_one,
+            a_to_b_two,
+            sqrt_price_limit_one: limit_one,
+            sqrt_price_limit_two: limit_two,
+        };
+        let v2 = rng.chance(1, 2);
+        let build = |a: &TwoHopArgs| if v2 { ix::two_hop_swap_v2(&t, a) } else { ix::two_hop_swap(&t, a) };
+        // quote on the current view
+        let mut fork = l.clone();
+        let in_acct = if a_to_b_one { t.owner_one_a } else { t.owner_one_b };
+        let out_acct = if a_to_b_two { t.owner_two_b } else { t.owner_two_a };
+        let (pi, po) = (world::token_amount(&fork, &in_acct), world::token_amount(&fork, &out_acct));
+        let o = rt::exec_tx_simple(&mut fork, &Tx { ixs: vec![build(&args)] });
+        if o.ok {
+            if rng.chance(1, 2) {
+                let paid = pi.saturating_sub(world::token_amount(&fork, &in_acct));
+                let got = world::token_amount(&fork, &out_acct).saturating_sub(po);
+                let slip = match rng.below(3) {
+                    0 => 0,
+                    1 => 1,
+                    _ => rng.below(1 + got.max(paid) / 200),
+                };
+                args.other_amount_threshold = if is_input { got.saturating_sub(slip) } else { paid.saturating_add(slip) };
+            }
+            flow.push((Tx { ixs: vec![build(&args)] }, if v2 { "two_hop_swap_v2".to_string() } else { "two_hop_swap".to_string() }));
+            break;
+        } else if rng.chance(1, 5) {
+            flow.push((Tx { ixs: vec![build(&args)] }, if v2 { "two_hop_swap_v2".to_string() } else { "two_hop_swap".to_string() }));
+            break;
+        }
+    }
+    actor.rng = rng.clone();
+    flow
 }
 
 pub fn plan_reward_auth(_w: &World, _k: &Knobs, _a: &mut Actor, _l: &Ledger) -> Vec<(Tx, String)> {
